@@ -25,6 +25,7 @@ import dns.opcode
 import dns.rcode
 import dns.rdata
 import dns.rdataclass
+import dns.rdataset
 import dns.rdatatype
 import dns.renderer
 import dns.rrset
@@ -1051,7 +1052,8 @@ def eval_steps(ctx: Ctx, c: dict):
                     else:
                         r.add_question(rr.name, rr.rdtype, rr.rdclass)
                 elif route == "rdataset":
-                    r.add_rdataset(sec, rr.name, rr.to_rdataset(), want_shuffle=False, override_rdclass=rr.deleting)
+                    rds = rr.to_rdataset() if len(rr) else dns.rdataset.Rdataset(rr.rdclass, rr.rdtype, rr.covers, rr.ttl)
+                    r.add_rdataset(sec, rr.name, rds, want_shuffle=False, override_rdclass=rr.deleting)
                 else:
                     r.add_rrset(sec, rr, want_shuffle=False)
                 tr.append(f"ok:{r.output.tell()}:{len(r.compress)}")
@@ -1091,6 +1093,15 @@ def eval_steps(ctx: Ctx, c: dict):
     ctx.count("steps.route." + route)
     if stop:
         return
+    if c.get("cmp_to_wire"):
+        # the third route: the message object's own to_wire must give the same octets (and so the same header counts)
+        try:
+            wmsg = m.to_wire(max_size=65535, want_shuffle=False)
+        except Exception as e:  # noqa: BLE001
+            wmsg = type(e).__name__
+        if wmsg != w:
+            fail(ctx, "C03/renderer/differs-from-to_wire", f"Renderer.add_{route} route: counts {struct.unpack('!HHHH', w[4:12])}, {len(w)} octets; "
+                 f"the message's to_wire: {wmsg if isinstance(wmsg, str) else (struct.unpack('!HHHH', wmsg[4:12]), len(wmsg))}", c)
     for clause, text in check_walk(ck, w):
         sig = {"pointer": "C03/renderer/compression/pointer-target", "name-differs": "C03/renderer/compression/name-differs",
                "undecodable": "C03/renderer/compression/undecodable", "counts": "C03/renderer/counts",
@@ -1880,6 +1891,27 @@ def gen_rollback(rng, variant):
     return c
 
 
+def gen_steps_empty(rng):
+    """the Renderer object with the degenerate input of RFC 2136: empty rrsets / rdatasets (delete-rrset, delete-name,
+    "exists" / "does not exist" prerequisites), through add_rrset and through add_rdataset, which must count and write alike"""
+    zone = [rng.choice([b"example", b"zone"]), b""]
+    def rr(name, rdtype, rds, deleting=None, ttl=0):
+        return {"name": hexl(name), "rdclass": 1, "rdtype": rdtype, "covers": 0, "deleting": deleting, "ttl": ttl, "rdatas": rds}
+    def raw(n):
+        return {"k": "o", "b": rng.bytes(n).hex()}
+    pre, upd = [], []
+    for k in range(1 + rng.below(3)):
+        pre.append(rr([b"p%d" % k] + zone, rng.choice([1, 28, 255, 65280]), [], rng.choice([255, 254])))
+    for k in range(1 + rng.below(3)):
+        if rng.chance(1, 3):
+            upd.append(rr([b"u%d" % k] + zone, 65280, [raw(4)], None, 300))
+        else:
+            upd.append(rr([b"u%d" % k] + zone, rng.choice([1, 15, 255, 65281]), [], 255))
+    return {"kind": "steps", "id": rng.below(65536), "flags": 0x2800, "origin": None, "request_payload": 0, "pad": 0,
+            "sections": [[rr(zone, 6, [])], pre, upd, []], "opt": None, "tsig": None, "max_size": 65535,
+            "route": rng.choice(["rrset", "rdataset", "rdataset"]), "q_default": False, "ctor": "full", "cmp_to_wire": True}
+
+
 def run_one(ctx, c):
     ctx.case((c["kind"], json.dumps(c, sort_keys=True)), sample=c if len(json.dumps(c)) < 1500 else None)
     eval_case(ctx, c)
@@ -1913,6 +1945,9 @@ def generate(ctx: Ctx, scale: int, rng):
             c = gen_straddle(rng, start, variant)
             run_one(ctx, c)
             ctx.count("straddle-3fff")
+    for i in range(n(40)):
+        run_one(ctx, gen_steps_empty(rng))
+        ctx.count("steps.empty-forms")
     # direct Renderer use: catch TooBig, keep adding names that end in the rolled-back owner
     for i in range(n(6)):
         for variant in range(16):
